@@ -330,7 +330,7 @@ theorem loopF_key (kt : KeyText) (h : kt.legal = true) (y : List Char) (hy : kt.
     simp [this]
   | quoted ps =>
     simp [KeyText.legal] at h
-    simp only [KeyText.text, KeyText.den, List.cons_append, List.append_assoc, List.singleton_append]
+    simp only [KeyText.text, KeyText.den, List.cons_append, List.append_assoc]
     rw [loopF_quote]
     simp [quoted_pieces ps h [] y]
 
@@ -552,7 +552,7 @@ theorem node_parse : ∀ nd : SNode, NodeP nd
     refine ⟨?_, fun h => by simp [SNode.isOpen] at h⟩
     intro _ G F hG
     have ih := (list_parse kids hl.1.2 [] post ('}' :: F) ('}' :: F) hl.2 (Term.rbrace F)).1
-    simp only [body, SNode.erase, List.append_assoc, List.cons_append, List.singleton_append, List.nil_append]
+    simp only [body, SNode.erase, List.append_assoc, List.cons_append, List.nil_append]
     rw [loopF_keyed_punct G hG k hl.1.1.1.2 m hl.1.1.2 '{' (Or.inr (Or.inr rfl)) _, loopF_lbrace, ih]
     simp
 theorem list_parse : ∀ ns : List SNode, ListP ns
@@ -647,5 +647,126 @@ theorem top_of_block (n : Nat) : ∀ (acc : List Conf) (s : List Char) (subs : L
           rw [hr] at hb
           have hlt := ((loopF_good [] false (c :: cs)).2 o tl hr).2 rfl c cs rfl hc
           exact ih _ tl subs (by simp at hlt hn; omega) hb
+
+/-! ### no read past the NUL (the fixed code has no such path) -/
+
+def LoopNoOob (f : List Char → Bool → List Char → Res) : Prop := ∀ k rk s, f k rk s ≠ .error .oob
+def BlockNoOob (g : List Conf → List Char → BRes) : Prop := ∀ acc s, g acc s ≠ .error .oob
+
+theorem loopBody_noOob {f g} (hf : LoopNoOob f) (hg : BlockNoOob g) : LoopNoOob (loopBody f g) := by
+  intro k rk s
+  cases s with
+  | nil => simp [loopBody_nil, finish]
+  | cons c cs =>
+    rcases char_cases c with hc | hc | hc | hc | hc | hc | hc | hc
+    · subst hc; simp [loopBody_rbrace, finish]
+    · rw [loopBody_word _ _ _ _ _ _ hc]
+      cases rk
+      · exact hf _ _ _
+      · simp [finish]
+    · subst hc; rw [loopBody_quote]
+      cases rk
+      · exact hf _ _ _
+      · simp [finish]
+    · subst hc; rw [loopBody_colon]
+      have := hf [] false cs
+      cases hr : f [] false cs with
+      | error e => rw [hr] at this; simpa using this
+      | ok p => simp
+    · subst hc; simp [loopBody_comma]
+    · subst hc; rw [loopBody_semicolon]; exact hf _ _ _
+    · subst hc; rw [loopBody_lbrace]
+      have := hg [] cs
+      cases hr : g [] cs with
+      | error e => rw [hr] at this; simpa using this
+      | ok p =>
+        obtain ⟨subs, tl⟩ := p
+        cases tl with
+        | nil => simp
+        | cons d tl' =>
+          simp only []
+          split <;> simp
+    · rw [loopBody_blank _ _ _ _ _ _ hc]; exact hf _ _ _
+
+theorem blockBody_noOob {f g} (hf : LoopNoOob f) (hg : BlockNoOob g) : BlockNoOob (blockBody f g) := by
+  intro acc s
+  cases s with
+  | nil => simp [blockBody]
+  | cons c cs =>
+    unfold blockBody
+    simp only []
+    split
+    · simp
+    · have := hf [] false (c :: cs)
+      cases hr : f [] false (c :: cs) with
+      | error e => rw [hr] at this; simpa using this
+      | ok p => exact hg _ _
+
+theorem noOob_all (n : Nat) : LoopNoOob (loop n) ∧ BlockNoOob (block n) := by
+  induction n with
+  | zero => exact ⟨fun k rk s => by rw [loop_zero]; simp, fun acc s => by rw [block_zero]; simp⟩
+  | succ n ih =>
+    exact ⟨by rw [loop_succ]; exact loopBody_noOob ih.1 ih.2, by rw [block_succ]; exact blockBody_noOob ih.1 ih.2⟩
+
+theorem top_noOob (n : Nat) : ∀ acc s, top n acc s ≠ .error .oob := by
+  induction n with
+  | zero => intro acc s; simp [top]
+  | succ n ih =>
+    intro acc s
+    cases s with
+    | nil => simp [top]
+    | cons c cs =>
+      unfold top
+      split
+      · simp
+      · have := (noOob_all n).1 [] false (c :: cs)
+        unfold parseToken
+        cases hr : loop n [] false (c :: cs) with
+        | error e => rw [hr] at this; simpa using this
+        | ok p => exact ih _ _
+
+/-! ### every tree can be written down -/
+
+def plainPiece (c : Char) : QPiece := if c = '"' ∨ c = '\\' then .esc c else .lit c
+
+mutual
+/-- one uniform way of writing a tree: every key quoted, every node `"key"{…}`, no filler -/
+def plainNode : Conf → SNode
+  | .mk k subs => .braces [] (some (.quoted (k.map plainPiece))) [] (plainNodes subs) []
+def plainNodes : List Conf → List SNode
+  | [] => []
+  | c :: cs => plainNode c :: plainNodes cs
+end
+
+theorem plainPiece_legal (c : Char) : (plainPiece c).legal = true := by
+  unfold plainPiece
+  split
+  · next h => rcases h with h | h <;> subst h <;> decide
+  · next h => simp [QPiece.legal]; simpa [not_or] using h
+
+theorem plainPiece_den (c : Char) : (plainPiece c).den = [c] := by
+  unfold plainPiece; split <;> rfl
+
+theorem plainKey_den (k : List Char) : (k.map plainPiece).flatMap QPiece.den = k := by
+  induction k with
+  | nil => rfl
+  | cons c cs ih => simp [plainPiece_den, ih]
+
+mutual
+theorem plainNode_ok : ∀ c : Conf, (plainNode c).legal = true ∧ (plainNode c).erase = c
+  | .mk k subs => by
+    have ih := plainNodes_ok subs
+    simp [plainNode, SNode.legal, SNode.erase, gapLegal, optKeyLegal, optKeyDen, KeyText.legal, KeyText.den,
+      plainPiece_legal, plainKey_den, ih.1, ih.2]
+theorem plainNodes_ok : ∀ cs : List Conf, SNode.legals (plainNodes cs) = true ∧ SNode.erases (plainNodes cs) = cs
+  | [] => by simp [plainNodes, SNode.legals, SNode.erases]
+  | c :: cs => by
+    have h1 := plainNode_ok c
+    have h2 := plainNodes_ok cs
+    have hf : (plainNode c).follows (plainNodes cs) = true := by
+      cases c with
+      | mk k subs => cases h : plainNodes cs <;> simp [plainNode, SNode.follows, SNode.isOpen]
+    simp [plainNodes, SNode.legals, SNode.erases, h1.1, h1.2, h2.1, h2.2, hf]
+end
 
 end Ctrmml.ConfModel
